@@ -352,6 +352,35 @@ func cmdCheck(args []string) int {
 			}
 		}
 	}
+	// thorough tier: the recorded counterexamples of this property are executed again on the real code. A repaired defect
+	// ("fixed:") must not reproduce - if it does, the defect is back and is reported with the replay log; a recorded finding
+	// ("finding:") is expected to reproduce - if it does not, the entry is stale and a note is printed (no alarm).
+	var canaryInfo []map[string]interface{}
+	if *tier == "thorough" && *prop != "" && fre == nil {
+		for _, k := range known {
+			if k.Property != *prop {
+				continue
+			}
+			for _, rr := range reg.Replays {
+				if !strings.Contains(k.Obligation, strings.TrimRight(rr.Obligation, "*")) {
+					continue
+				}
+				ok, out := runGoReplay(*verifDir, rr.Pkg, rr.File, rr.Run)
+				info := map[string]interface{}{"kind": k.Kind, "obligation": rr.Obligation, "test": rr.File, "reproduced": ok}
+				canaryInfo = append(canaryInfo, info)
+				if k.Kind == "fixed" && ok {
+					exit = 1
+					os.MkdirAll(replayDir, 0o755)
+					rp := filepath.Join(replayDir, "returned_"+mangle(rr.Obligation)+".replay.log")
+					os.WriteFile(rp, []byte(out), 0o644)
+					violations = append(violations, fmt.Sprintf("VIOLATION property=%s replay=%s obligation=%s repaired-defect-reproduces-again replayed-on-real-code=%s", *prop, rp, rr.Obligation, rr.File))
+				}
+				if k.Kind == "finding" && !ok {
+					fmt.Printf("NOTE: recorded finding no longer reproduces on the real code: %s (%s)\n", rr.Obligation, rr.File)
+				}
+			}
+		}
+	}
 	var boundedInfo []map[string]interface{}
 	for _, tk := range trustedUsed {
 		found := false
@@ -413,6 +442,7 @@ func cmdCheck(args []string) int {
 				"engine_errors":            funcErrs,
 				"trusted_contracts_used":   trustedUsed,
 				"bounded":                  boundedInfo,
+				"replayed_counterexamples": canaryInfo,
 			},
 			"assumptions": standingAssumptions,
 			"wall_s":      round2(wall),
